@@ -6,6 +6,8 @@ repo = sys.argv[1] if len(sys.argv) > 1 else "/repo"
 base = json.load(open("/root/.vp/BASELINE.json"))
 stable = set(base["stable_pass"])
 env = dict(os.environ); env.pop("WARNER_PYTHON_ECDSA_VERIF", None)
+# keep hypothesis from persisting a rare failing draw into the tree (it would then replay it forever)
+env["HYPOTHESIS_STORAGE_DIRECTORY"] = tempfile.mkdtemp(prefix="hypo-")
 with tempfile.TemporaryDirectory() as td:
     jx = os.path.join(td, "j.xml")
     subprocess.run(["/venv/bin/python", "-m", "pytest", "-q", "-p", "no:cacheprovider", "--timeout=900",
